@@ -2396,6 +2396,8 @@ class Exec:
                 return self.mk_int(v.t.shape[d])
             if v.k == "ptr":
                 return self.mk_int(v.t[0].shape[0])
+            if v.k == "vec" and d == 0 and v.t.present is None:
+                return self.mk_int(v.t.n)
             raise Undecidable("shape() of non-array")
         if fn == "extent":
             v = self.ev(n.args[0])
